@@ -296,7 +296,7 @@ impl Lattice {
 impl Lattice {
     /// For every end boundary (all allocated rows, also those past `size`), in insertion order:
     /// (begin, end, left_id, right_id, cost, raw word id, total cost, back-pointer end, back-pointer index)
-    pub fn verif_rows(&self) -> Vec<Vec<(usize, usize, u16, u16, i16, u32, i32, u16, u16)>> {
+    pub fn verif_rows(&self) -> Vec<Vec<(usize, usize, u16, u16, i16, u32, i32, u16, u32)>> {
         let mut rows = Vec::with_capacity(self.ends_full.len());
         for (e, full) in self.ends_full.iter().enumerate() {
             let mut row = Vec::with_capacity(full.len());
@@ -330,7 +330,7 @@ impl Lattice {
     }
 
     /// best predecessor of EOS (end, index) and the final path cost
-    pub fn verif_eos(&self) -> Option<(u16, u16, i32)> {
+    pub fn verif_eos(&self) -> Option<(u16, u32, i32)> {
         self.eos.map(|(i, c)| (i.end(), i.index(), c))
     }
 
